@@ -1184,14 +1184,24 @@ def _g1(ctx: Context) -> None:
             ck.unknown("C09.G1", f"{short} contains no _send_lines call (anchor vanished)", f.loc())
             continue
         n_callers += 1
-        ck.check("C09.G1", len(ss) == 1, f"{short}: exactly one _send_lines call", f"{fk}:_send_lines-count",
-                 f"{short} contains {len(ss)} _send_lines calls", ss[-1].loc())
+        # exactly one _send_lines call per request = per path: several call sites are fine when they exclude each other
+        # (a single-frame fast path next to the framing loop), a second call reachable from the first is not
+        again = None
+        for a in ss:
+            for b in ss:
+                if a.node is None or b.node is None:
+                    continue
+                for e in cfg.out_edges(a.node, ("n", "T", "F")):
+                    if e[1] == b.node.id or cfg.find_path(e[1], b.node.id) is not None:
+                        again = (a, b)
+        ck.check("C09.G1", again is None, f"{short}: at most one _send_lines call on any path ({len(ss)} call site(s))", f"{fk}:_send_lines-count",
+                 f"{short}: after one _send_lines call another one is reachable - the request reaches the transport in several writes", ss[-1].loc())
         p = ("param", f.pos_params[1]) if len(f.pos_params) > 1 else None
         for s in ss:
             in_loop = s.node is None or _in_loop(cfg, s.node)
             ck.check("C09.G1", not in_loop, f"{short}: _send_lines is called outside every loop (after framing)", f"{fk}:_send_lines-in-loop",
                      f"{short}: _send_lines is called inside a loop - one transport write per frame instead of one per request", s.loc())
-            if in_loop or len(ss) != 1:
+            if in_loop or again is not None:
                 continue
             if len(s.call.args) != 1 or s.call.keywords:
                 ck.unknown("C09.G1", f"{short}: _send_lines is not called with one positional argument", s.loc())
@@ -1201,7 +1211,11 @@ def _g1(ctx: Context) -> None:
             du = T.du(cfg)
             _nid, lit = _resolve_expr(du, s.node.id, a)
             if isinstance(a, (ast.Tuple, ast.List)) or isinstance(lit, ast.Tuple):
-                ck.check("C09.G1", t in (("tuple", (p,)), ("list", (p,))), f"{short}: the whole payload goes to _send_lines in one piece",
+                whole = t in (("tuple", (p,)), ("list", (p,)))
+                # the encrypting variant may hand over a literal (length prefix, ciphertext) pair of ONE frame on a
+                # path that excludes the framing loop: every element derives from the payload, nothing foreign
+                framed = "Secure" in q and t[0] in ("tuple", "list") and len(t[1]) >= 1 and all(contains(e, lambda x: x == p) for e in t[1])
+                ck.check("C09.G1", whole or framed, f"{short}: the whole payload goes to _send_lines in one piece",
                          f"{fk}:_send_lines-arg", f"{short}: _send_lines receives {show(t, 100)}, not the whole payload", s.loc())
             elif is_built_list(ctx, cfg, s.node.id, a):
                 seqs = list_sequences(ctx, cfg, s.node, a)
